@@ -126,6 +126,11 @@ def classify_values(tr, line, clause):
         return "%s:%s/%s:%s/%s:%s" % (clause, a.get("cls"), a.get("ty"), a.get("mode"), b.get("mode"),
                                       "".join(str(e.get(k, "?")) for k in ("eq", "hasheq", "lt", "gt")))
     cls = tr.get("cls", "?")
+    if (e.get("op") == "ctor" and cls == "dns.rdata.GenericRdata" and e.get("attr") == "data"
+            and clause in ("ImmutableKind", "ArgumentNotAliased") and e.get("passed") == ["bytearray"]
+            and (clause == "ArgumentNotAliased" or "bytearray" in e.get("kinds", []))):
+        # F44 (fixed in cd9a417): GenericRdata.__init__ stored a bytearray argument as given
+        return "F44:GenericRdata-constructor-keeps-mutable-data:%s" % clause
     if (clause in ("NoRebind", "NoDelete", "FieldUnchanged") and cls.startswith("dns.edns.") and cls.endswith("Option")
             and tr["tid"].startswith("dns.rdtypes.ANY.OPT.OPT.options[")):
         return "C07imm:OPT.options:mutable-edns-option:%s" % cls.rsplit(".", 1)[-1]
@@ -153,7 +158,8 @@ def run_values(ctx, quick):
             traces = [c07_sets.compare_records((case["pair"], "replay"))]
         else:
             jobs, _ = c07_sets.value_jobs()
-            traces = [tr for j in jobs if j[0] == case["root"] for tr in c07_sets.probe_value(j) if tr["tid"] == case["tid"]]
+            traces = [tr for j in jobs if j[0] == case["root"]
+                      for tr in c07_sets.probe_value(j) + c07_sets.probe_ctor(j) if tr["tid"] == case["tid"]]
         pairs = {"replay": case.get("pair")}
     else:
         ctx.model("MC_ValueObject", "MC_ValueObject.cfg", workers=1, heap="2g")
@@ -170,7 +176,18 @@ def run_values(ctx, quick):
         vt = []
         for trs in ctx.pmap(c07_sets.probe_value, jobs, procs=1):
             vt += trs
-        ctx.extra["objects_probed"] = len(vt)
+        ct = []
+        for trs in ctx.pmap(c07_sets.probe_ctor, [j for j in jobs if not j[0].startswith("Name:")], procs=1):
+            ct += trs
+        built = [t for t in ct if t["ev"][0].get("built") == "ok"]
+        ctx.extra["ctor_variants"] = len(ct)
+        ctx.extra["ctor_variants_built"] = len(built)
+        ctx.extra["ctor_classes_built"] = len({t["root"] for t in built})
+        if not any(t["tid"] == "dns.rdata.GenericRdata#ctor:data" for t in built) or len(built) < 40:
+            from vlib.core import Machinery
+            raise Machinery("constructor probe is vacuous: %d variants built" % len(built))
+        vt += ct
+        ctx.extra["objects_probed"] = len(vt) - len(ct)
         ctx.extra["rdata_classes_probed"] = len(jobs) - 4
         ctx.extra["slots_probed"] = sum(len(t["ev"]) for t in vt)
         traces += vt
